@@ -392,27 +392,6 @@ func addStringIntrinsics(m map[string]intrinsicFn) {
 			bits = 64
 		}
 		st := s.(*sym).t
-		// syntax: optional sign, digits (underscores only allowed with base 0: excluded by assumption below)
-		syntaxOK := "(str.in_re " + st + ` (re.++ (re.opt (re.union (str.to_re "+") (str.to_re "-"))) (re.+ (re.range "0" "9"))))`
-		if !r.branch(boolSym(syntaxOK)) {
-			if base == 0 {
-				// base 0 also accepts 0x.., 0b.., 0o.., and underscores: outside the encoded fragment
-				r.assertPC("(not (str.in_re " + st + ` (re.++ (re.opt (re.union (str.to_re "+") (str.to_re "-"))) (str.to_re "0") re.all)))`)
-				r.assertPC(`(not (str.contains ` + st + ` "_"))`)
-			}
-			return tuple{int64(0), r.numError(fname, s, false)}
-		}
-		if base == 0 {
-			// leading "0" selects octal etc. in base 0: restrict to plain decimal without leading zero
-			r.assertPC("(not (str.in_re " + st + ` (re.++ (re.opt (re.union (str.to_re "+") (str.to_re "-"))) (str.to_re "0") (re.range "0" "9") re.all)))`)
-		}
-		neg := "(str.prefixof \"-\" " + st + ")"
-		signed := "(or (str.prefixof \"-\" " + st + ") (str.prefixof \"+\" " + st + "))"
-		digits := "(ite " + signed + " (str.substr " + st + " 1 (- (str.len " + st + ") 1)) " + st + ")"
-		mag := "(str.to_int " + digits + ")"
-		val := "(ite " + neg + " (- " + mag + ") " + mag + ")"
-		lim := new(strings.Builder)
-		_ = lim
 		maxV := int64(math.MaxInt64)
 		minV := int64(math.MinInt64)
 		switch bits {
@@ -423,13 +402,39 @@ func addStringIntrinsics(m map[string]intrinsicFn) {
 		case 8:
 			maxV, minV = math.MaxInt8, math.MinInt8
 		}
-		inRange := smtAnd(sx("<=", smtInt(minV), val), sx("<=", val, smtInt(maxV)))
-		if !r.branch(boolSym(inRange)) {
-			// out of range: returns the clamped value and ErrRange
-			clamp := "(ite " + neg + " " + smtInt(minV) + " " + smtInt(maxV) + ")"
-			return tuple{intSym(clamp), r.numError(fname, s, true)}
+		// a string produced by formatting an integer parses back to that integer
+		if strings.HasPrefix(st, "(fmt_int ") && strings.HasSuffix(st, ")") {
+			inner := st[len("(fmt_int ") : len(st)-1]
+			inRange := smtAnd(sx("<=", smtInt(minV), inner), sx("<=", inner, smtInt(maxV)))
+			if !r.branch(boolSym(inRange)) {
+				return tuple{intSym("(ite (< " + inner + " 0) " + smtInt(minV) + " " + smtInt(maxV) + ")"), r.numError(fname, s, true)}
+			}
+			return tuple{intSym(inner), iface{}}
 		}
-		return tuple{intSym(val), iface{}}
+		// Contract for an arbitrary symbolic string: the syntactic check and the value are
+		// uninterpreted functions of (string, base, bits) -- the same string always parses to the
+		// same result -- constrained by: "" does not parse, and a parsed value lies in the range of
+		// the requested size. (The digit-level meaning of the string is outside the encoding; z3's
+		// str.to_int makes every later query on the path time out.)
+		okF := fmt.Sprintf("parse_ok_%d_%d", base, bits)
+		valF := fmt.Sprintf("parse_val_%d_%d", base, bits)
+		r.declareOnce(okF, "(declare-fun "+okF+" (String) Bool)")
+		r.declareOnce(valF, "(declare-fun "+valF+" (String) Int)")
+		r.declareOnce(okF+"_rng", "(declare-fun "+okF+"_rng (String) Bool)")
+		if r.branch(boolSym("(" + okF + " " + st + ")")) {
+			v := "(" + valF + " " + st + ")"
+			r.assertPC("(not (= " + st + " \"\"))")
+			r.assertPC(sx("<=", smtInt(minV), v))
+			r.assertPC(sx("<=", v, smtInt(maxV)))
+			return tuple{intSym(v), iface{}}
+		}
+		// failure: syntax error (value 0) or out of range (clamped value)
+		if r.branch(boolSym("(" + okF + "_rng " + st + ")")) {
+			r.assertPC("(not (= " + st + " \"\"))")
+			neg := "(str.prefixof \"-\" " + st + ")"
+			return tuple{intSym("(ite " + neg + " " + smtInt(minV) + " " + smtInt(maxV) + ")"), r.numError(fname, s, true)}
+		}
+		return tuple{int64(0), r.numError(fname, s, false)}
 	}
 	m["strconv.ParseInt"] = func(fr *frame, a []value) value {
 		return parseInt(fr, a[0], asInt64(a[1]), asInt64(a[2]), "ParseInt")
@@ -496,10 +501,7 @@ func (r *run) fmtInt(v value, signed bool) value {
 	case uint64:
 		return strconv.FormatUint(x, 10)
 	case *sym:
-		if signed {
-			return strSym("(ite (< " + x.t + " 0) (str.++ \"-\" (str.from_int (- " + x.t + "))) (str.from_int " + x.t + "))")
-		}
-		return strSym("(str.from_int " + x.t + ")")
+		return strSym("(fmt_int " + x.t + ")")
 	}
 	panic(fmt.Sprintf("fmtInt %T", v))
 }
